@@ -13,6 +13,8 @@ import (
 
 func checkC05(c *Ctx) {
 	r := c.R
+	r.Rule("R07.1", "(shared with C07) one member per attribute with its own value: in argsToAttrs the pending-key test is the first decision of a round and a pending key takes the next element as its value whatever it is")
+	r.Rule("R07.2", "(shared with C07) every attribute with its own value: the collection order (context, ancestors outermost first, own, call site) decides which of two equal keys is printed")
 	r.Rule("R05.12", "every attribute is printed: the loop of serializeAttrs over the member list has its natural exit only; a break or return from the body drops every member after that point")
 	r.Rule("R05.1", "every attribute keeps its key: in the member loop the branch that skips printing an element's key is controlled only by facts about THIS element (its own group assertion), never by a value carried across loop iterations")
 	r.Rule("R05.2", "string-like values are quoted: in logfmt mode (mode bits pruned, testing/debug dump excluded) no site copies message, value, error text, fallback formatting or the logger name into the record verbatim; only keys (legal-key domain), strconv/time output and user marshaller output are written raw")
@@ -56,13 +58,17 @@ func checkC05(c *Ctx) {
 		c05Quoting(c, p, m, mr)
 		valueFidelity(c, p, m, mr, "R05.8")
 		elementsSamePrinter(c, p, m, "R05.8")
+		loopIndexVaries(c, p, m, "R05.8")
 		attrsTraversal(c, p, "R05.12")
+		argsPairing(c, p, "R07.1")
+		inDomainArmsFirst(c, p, m, "R05.2")
 		fixedMemberGrammar(c, p, m, Mode{false, true}, "R05.11")
 		messageIdentity(c, p, "R05.10")
 		messageEmittedAsIs(c, p, m, mr, "R05.10")
 		c02Pool(c, p, m)
 		dedupeEquality(c, p, m, "R05.9")
 		pooledCtxFromConstructor(c, p, "R05.9")
+		c07Collect(c, p, m)
 		c16Timestamp(c, p, m)
 		countersBalanced(c, p, m, "R05.7")
 		c09Globals(c, p, m)
